@@ -134,6 +134,10 @@ TEMPLATES = {
                'sequence-Roman>.<dtml-var sequence-roman>.<dtml-var '
                'sequence-number>,</dtml-in>',
     'tiny': 'a<dtml-var x>b',
+    # line ends of other conventions: the source text is what it is,
+    # however often it is read and compiled
+    'crlf': '<dtml-if c>\r\r\n<dtml-var x>\r\n<dtml-else>\r\r\nn\r</dtml-if>'
+            '\r\r\n<dtml-var y>\n\r',
     'with': '<dtml-with o><dtml-var x></dtml-with><dtml-with "m" mapping>'
             '<dtml-var x></dtml-with>',
     'withonly': '<dtml-with o only><dtml-var x><dtml-var y missing="-">'
@@ -337,7 +341,7 @@ def cases(tier):
         for k in range(4):
             yield {'tmpl': name, 'fam': 'steady', 'threads': 2, 'bound': 2,
                    'shard': [k, 4], 'sites': sites}
-    quick_compile = ('var', 'if', 'insortexpr', 'with', 'try')
+    quick_compile = ('var', 'if', 'insortexpr', 'with', 'try', 'crlf')
     for name in names:
         for fam in ('steady', 'compile'):
             if fam == 'compile' and tier == 'quick' and \
